@@ -10,11 +10,14 @@ LIB = ["hdb", "array", "unix", "util", "ringbuffer", "ringbuffer_helper", "log",
 
 def run(ctx):
     ctx.rule = ("cases = seeded random histories of create (with the values random() returns) / get / get_always / "
-                "put / destroy / refcount / iter_reset / iter_next on issued handles hK, their copies after "
+                "put / destroy / refcount / iter_reset / iter_next / createfail (create whose allocation fails: "
+                "instance_size -1) on issued handles hK, their copies after "
                 "destruction, and never-issued values (no-check form nK, check 0 zK, foreign check kK:X, foreign slot "
                 "sK:N, raw rHEX incl. slots >= 2^31 and >= handle_count), with drain-to-zero + slot reuse + poke-the-"
                 "stale-handle episodes, iteration passes interleaved with destroy/put, repeated check values and "
-                "random() returning 0 / out-of-range values; a case is non-trivial if it hits a destructor run, a "
+                "random() returning 0 / out-of-range values, failing creates followed by iteration / pokes at the slot / "
+                "a successful create; every case ends with (and some contain) a `dump` of the table itself (handle_count, "
+                "iterator, per slot state/ref_count/check/instance) that is compared with the model only; a case is non-trivial if it hits a destructor run, a "
                 "stale-handle op, a slot reuse, a refused get after destroy, a put after destroy, an iteration visit, "
                 "or an accepted never-issued value; distinct by SHA1 of its op lines")
     ctx.trusted = ["Lean 4.33 kernel; axioms propext, Classical.choice, Quot.sound",
@@ -26,7 +29,8 @@ def run(ctx):
                        "value drawn for a reused slot differs from the earlier checks of that slot (nonce freshness; "
                        "stated as the hypotheses GoodCheck / Fresh of the theorems)",
                        "fewer than 2^31 outstanding references (int32 ref_count does not wrap)",
-                       "malloc succeeds"]
+                       "malloc fails only when asked for (size_t)-1 bytes (the createfail op); other allocation failures "
+                       "(qb_array bins) not exercised"]
     vlib.lean_prepare(ctx)
     ctx.compile_lib(sources=LIB)
     exe = ctx.compile_harness("hdb/hdb_drv.c")
@@ -34,7 +38,8 @@ def run(ctx):
         cases = vlib.read_case_file(ctx.replay)
         vlib.differential(ctx, exe, "hdb", cases, hdbgen.oracle, "replay", nontrivial=hdbgen.tags)
         return
-    corpus = vlib.corpus_cases("C20")
+    # C20_NO_CORPUS=1: sensitivity experiments only (does the GENERATOR find a seeded defect by itself?)
+    corpus = [] if os.environ.get("C20_NO_CORPUS") else vlib.corpus_cases("C20")
     vlib.differential(ctx, exe, "hdb", corpus, hdbgen.oracle, "corpus", nontrivial=hdbgen.tags)
     if ctx.violations:
         return
